@@ -48,6 +48,9 @@ EXPLANATION += ' R7: every public document_* factory is interpreted as a whole (
 # --- metadata added after the round-3 refactoring twins
 EXPLANATION += ' R2 looks for the listing call in the registry builder and the helpers it calls (the order is decided by evaluation in R9). R5 sees "not found" checks written as a loop over (value, message) rows.'
 # --- end metadata round-3 twins
+# --- metadata added after the round-4 refactoring twins
+EXPLANATION += ' R5: a loader that dispatches through a literal table of functions (`TABLE[key](...)`) is analysed as the join over the functions of the table.'
+# --- end metadata round-4 twins
 TRUSTED = ["CPython ast parser", "pkgutil.iter_modules yields modules in sorted name order", "fnmatch glob semantics (* ? [seq])"]
 
 OPS = ("load_one", "load_many", "dump_one", "dump_many")
